@@ -63,7 +63,7 @@ def make(cfg):
             g = []
             for i, s in enumerate(origs):
                 present = True
-                if cfg.get("presence") == "symbolic":
+                if cfg.get("presence") == "symbolic" and (cfg.get("presence_params") is None or i in cfg["presence_params"]):
                     present = bool(symx.symbool(f"present_p{i}_s{k}"))
                 g.append(H.arr_var(f"g{k}p{i}", s) if present else None)
             grads_all.append(g)
@@ -188,6 +188,13 @@ def jobs_for(tier):
     # reduced-precision communication (one step from a common state): replicas identical, deviation = rounding of the communicated quantity
     add([(4, 2), (3,)], 1, hybrid=dict(replicate=2, group=2, comm="BF16"), graft=None, T=1, sps=1, fixed=dict(mom=0))
     add([(4, 2), (2,)], 2, hybrid=dict(replicate=2, group=2, comm="FP16", communicate_params=True), graft="sgd", T=1, sps=1, fixed=dict(mom=0, wd=0))
+    # parameter dtype (4 bytes) != communication dtype (2 bytes) with block sizes that are not 64-byte multiples in either
+    add([(5, 5), (5,), (4, 3), (4,)], 1, hybrid=dict(replicate=2, group=2, comm="BF16"), graft=None, T=1, sps=1, mpd=5, merge=False, fixed=dict(mom=0, wd=0, b1=0), mixed_sizes=True)
+    # a local shard that keeps three dimensions (no merging) and is blocked along its last one: strided 3-d blocks through the communication buffers
+    add([(2, 2, 4), (2,)], 1, hybrid=dict(replicate=2, group=2), graft=None, merge=False, mpd=2, T=1, sps=1, fixed=dict(mom=0, wd=0, b1=0))
+    add([(2, 2, 4), (2,)], 1, hybrid=dict(replicate=2, group=2, communicate_params=True), graft="sgd", merge=False, mpd=2, T=1, sps=1, fixed=dict(mom=0, wd=0))
+    # HybridShard with a gradient that comes and goes for a block owned by ONE replica rank while every rank keeps other gradients
+    add([(4, 2), (3,), (2,)], 1, hybrid=dict(replicate=2, group=2), presence="symbolic", presence_params=[2], T=3, graft=None, fixed=dict(mom=0, wd=0, b1=0), merge=False)
     # num_trainers_per_group a proper divisor of the replicate size: several distribution groups inside one replicate group
     add([(4, 2), (3,)], 1, hybrid=dict(replicate=2, group=1), graft=None, fixed=dict(mom=0, wd=0))
     if tier == "thorough":
